@@ -31,7 +31,7 @@ def gen_cost(rng, dim, models=None, vector=False):
         p = gen_quad(rng, dim)
         p['hole'] = [r2(rng, -2, 2) for _ in range(dim)]; p['r2'] = rng.choice([0.01, 0.25])
     elif m == 'vector':
-        p = {'parts': [gen_quad(rng, dim) for _ in range(rng.choice([2, 3]))]}
+        p = {'parts': [gen_quad(rng, dim) for _ in range(rng.choice([1, 2, 2, 3]))]}      # (1: an array-valued cost with a single component)
     elif m == 'flat':
         p = gen_quad(rng, dim)
         k = rng.randrange(1, max(2, dim))
